@@ -20,7 +20,9 @@ Record eobs := mkeobs {
   e_routes : list (string * list N);       (* Server.Routes() / ng.routes after all AddRoutes: (method, path) *)
   e_slices : list (list (string * list N) * list (string * list N));
                                            (* every caller slice: as given, as inspected after start-up *)
-  e_calls : list (string * list N * nat)
+  e_calls : list (string * list N * nat);
+  e_cors : bool                            (* server created with WithCors / WithCustomCors; then o_nf = 1 iff the
+                                              (replaced) not-allowed handler answered the request *)
 }.
 
 (* one step of a router history with what was observed: a registration (error class, path.Clean of
@@ -107,6 +109,18 @@ Fixpoint all2 {A B} (f : A -> B -> bool) (l1 : list A) (l2 : list B) : bool :=
   | _, _ => false
   end.
 
+(* with CORS: OPTIONS -> 204 without handler; NotAllowed -> 404 without Allow (cors.NotAllowedHandler) *)
+Definition model_req_cors (tb : table) (mp : string * list N) (o : robs) : bool :=
+  let (m, p) := mp in
+  match o_path o with Some q => bytes_eqb q p | None => true end &&
+  bytes_eqb (clean p) (match o_clean o with Some q => q | None => p end) &&
+  match cors_serve tb m p with
+  | CPreflight => N.eqb (o_status o) 204 && is_nil (o_hids o) && is_nil (o_allow o)
+  | CRouted (Hit rs) => N.eqb (o_status o) 200 && existsb (hit_ok o) rs && is_nil (o_allow o) && Nat.eqb (o_nf o) 0
+  | CRouted (NotAllowed _) => N.eqb (o_status o) 404 && is_nil (o_hids o) && is_nil (o_allow o) && Nat.eqb (o_nf o) 1
+  | CRouted NotFound => N.eqb (o_status o) 404 && is_nil (o_hids o) && is_nil (o_allow o) && Nat.eqb (o_nf o) 0
+  end.
+
 (* the Handle calls the engine makes: every route in order, up to and including the first error *)
 Fixpoint model_calls (tb : table) (rs : list reg) : list (string * list N * nat) :=
   match rs with
@@ -140,7 +154,7 @@ Definition model_ok (c : case) : bool :=
       forallb (fun ba => list_eqb mp_eqb (fst ba) (snd ba)) (e_slices eo) &&
       Nat.eqb (err_code e) (e_err eo) &&
       list_eqb call_eqb (model_calls [] rs) (e_calls eo) &&
-      all2 (model_req false false tb) (c_reqs c) (c_res c)
+      all2 (if e_cors eo then model_req_cors tb else model_req false false tb) (c_reqs c) (c_res c)
   | None =>
       match model_regs (c_tree c) [] 0 (c_regs c) (c_errs c) (c_rclean c) with
       | Some tb => all2 (model_req (c_tree c) (c_nf c) tb) (c_reqs c) (c_res c)
@@ -186,7 +200,7 @@ Definition vars_ok (pat q : list seg) (ov : list (seg * seg)) : bool :=
 Fixpoint nodup_str (l : list string) : list string :=
   match l with [] => [] | a :: r => if mem_str a r then nodup_str r else a :: nodup_str r end.
 
-Definition spec_req (nf : bool) (acc : list route) (mp : string * list N) (o : robs) : bool :=
+Definition spec_req_gen (cors nf : bool) (acc : list route) (mp : string * list N) (o : robs) : bool :=
   let (m, p0) := mp in
   let p := match o_path o with Some q => q | None => p0 end in   (* the request path is r.URL.Path *)
   match req_segs (clean p) with
@@ -210,10 +224,22 @@ Definition spec_req (nf : bool) (acc : list route) (mp : string * list N) (o : r
           is_nil (o_hids o) &&
           match others with
           | [] => N.eqb (o_status o) 404 && Nat.eqb (o_nf o) (if nf then 1 else 0)
-          | _ => N.eqb (o_status o) 405 && set_eqb others (o_allow o)
+          | _ => if cors
+                 (* WithCors installs cors.NotAllowedHandler through the router's public override: the
+                    router must hand the request to it (observed: o_nf = 1), its answer is 404 *)
+                 then N.eqb (o_status o) 404 && Nat.eqb (o_nf o) 1
+                 else N.eqb (o_status o) 405 && set_eqb others (o_allow o)
           end
       end
   end.
+
+Definition spec_req : bool -> list route -> string * list N -> robs -> bool := spec_req_gen false.
+
+(* with CORS enabled: an OPTIONS request is a preflight (204, no handler); any other request - with
+   or without Origin / Access-Control-Request-* headers - is answered as without CORS *)
+Definition spec_req_cors (acc : list route) (mp : string * list N) (o : robs) : bool :=
+  if String.eqb (fst mp) "OPTIONS" then N.eqb (o_status o) 204 && is_nil (o_hids o)
+  else spec_req_gen true false acc mp o.
 
 (* tree level: the matcher statement applies when routes and request have the cleaned shape *)
 Definition spec_req_tree (acc : list route) (mp : string * list N) (o : robs) : bool :=
@@ -266,7 +292,8 @@ Definition spec_engine (c : case) (eo : eobs) : bool :=
   match verdict with
   | Some _ => negb (Nat.eqb (e_err eo) 0) && all2 (spec_req_sound acc) (c_reqs c) (c_res c)
   | None => if Nat.eqb (e_err eo) 0
-            then same_patterns acc (e_calls eo) && all2 (spec_req false acc) (c_reqs c) (c_res c)
+            then same_patterns acc (e_calls eo) &&
+                 all2 (if e_cors eo then spec_req_cors acc else spec_req false acc) (c_reqs c) (c_res c)
             else false   (* every added route is acceptable, yet the start-up failed: the routes are not served *)
   end.
 
